@@ -9,6 +9,7 @@ import (
 	"strings"
 	"time"
 
+	"github.com/btcsuite/btcd/btcec/v2"
 	"github.com/btcsuite/btcd/btcutil"
 	"github.com/btcsuite/btcd/btcutil/hdkeychain"
 	"github.com/btcsuite/btcd/txscript"
@@ -52,6 +53,7 @@ type awArgs struct {
 	Name  string `json:"name"`
 	Num   int    `json:"num"`
 	P     string `json:"p"`
+	ID    string `json:"id"`
 }
 
 type awAcct struct {
@@ -62,6 +64,7 @@ type awAcct struct {
 }
 
 type awObs struct {
+	Imp    []string            `json:"imp"`
 	Locked bool                `json:"locked"`
 	Accts  map[string][]awAcct `json:"accts"`
 }
@@ -87,6 +90,9 @@ type awWorld struct {
 	kinds  map[string]string                  // scope/number -> "hd" | "xpub"
 	nimp   int
 	ndry   int
+	npub   int
+	idx    int
+	silent bool // the behaviour left what the model describes (by design of the harness, not a difference)
 	diffs  [][4]interface{}
 	n      int
 }
@@ -165,7 +171,7 @@ func replayAddrWallet(idx int, line []byte, prop string, seed int, root string, 
 		return
 	}
 	defer e.close()
-	w := &awWorld{e: e, prop: prop, xpubs: map[string]*hdkeychain.ExtendedKey{}, kinds: map[string]string{}}
+	w := &awWorld{e: e, prop: prop, idx: idx, xpubs: map[string]*hdkeychain.ExtendedKey{}, kinds: map[string]string{}}
 	if w.master, err = hdkeychain.NewMaster(e.seed, e.params); err != nil {
 		rep.AddError("trace %d: %v", idx, err)
 		return
@@ -235,6 +241,12 @@ func replayAddrWallet(idx int, line []byte, prop string, seed int, root string, 
 		if derr != nil {
 			rep.AddError("trace %d step %d: expectation does not decode: %v", idx, si, derr)
 			return
+		}
+		if w.silent {
+			for _, d := range w.diffs {
+				report(si, d)
+			}
+			break
 		}
 		if exp != nil && !diverged {
 			if len(exp.Accts) == 0 {
@@ -389,6 +401,41 @@ func (w *awWorld) apply(st *awStep, a *awArgs, si int) (string, error) {
 			return "duplicate", nil
 		}
 		return st.Ret, nil
+	case "Import":
+		if a.Oc != "commit" {
+			return "", fmt.Errorf("harness: Import with outcome %q has no wallet-level counterpart", a.Oc)
+		}
+		pub := w.importPub(a.ID)
+		addr, err := btcutil.NewAddressWitnessPubKeyHash(btcutil.Hash160(pub.SerializeCompressed()), e.params)
+		if err != nil {
+			return "", err
+		}
+		w.npub++
+		if (si+w.npub)%2 == 0 {
+			// every second import (by the position of the step in its behaviour, so that a replayed prefix does the same) meets a backend that refuses the address subscription: whatever the wallet then
+			// answers, the running wallet and a reopened one have to agree on whether the address is known
+			e.chain.ArmNotifyRecvFailure(1)
+			ierr := e.w.ImportPublicKey(pub, waddrmgr.WitnessPubKey)
+			e.chain.ArmNotifyRecvFailure(0)
+			w.n++
+			running, _ := e.w.HaveAddress(addr)
+			reopened, serr := w.shadowKnows(addr)
+			if serr != nil {
+				return "", serr
+			}
+			if running != reopened {
+				w.add("view", fmt.Sprintf("import of public key %s with a refused subscription (result: %v): address known to the running wallet / to a reopened one", a.ID, ierr),
+					fmt.Sprintf("%v / %v", running, reopened), "the same answer")
+			}
+			w.silent = true
+			return st.Ret, nil
+		}
+		err = e.w.ImportPublicKey(pub, waddrmgr.WitnessPubKey)
+		w.n++
+		if err != nil && strings.Contains(err.Error(), "already exists") {
+			return "duplicate", nil
+		}
+		return awClass(err), nil
 	case "Rename":
 		if a.Oc != "commit" {
 			return "", fmt.Errorf("harness: Rename with outcome %q has no wallet-level counterpart", a.Oc)
@@ -473,6 +520,28 @@ func (w *awWorld) view(exp *awObs) {
 			w.add("view", fmt.Sprintf("running: AccountProperties(%s/%d) of an account that does not exist", s, len(accts)), "ok", "error")
 		}
 	}
+	// imported public keys: known to the running wallet and to a reopened one exactly when the model has them
+	for _, id := range []string{"p1", "p2"} {
+		in := false
+		for _, x := range exp.Imp {
+			if x == id {
+				in = true
+			}
+		}
+		pub := w.importPub(id)
+		addr, err := btcutil.NewAddressWitnessPubKeyHash(btcutil.Hash160(pub.SerializeCompressed()), e.params)
+		if err != nil {
+			continue
+		}
+		running, _ := e.w.HaveAddress(addr)
+		w.n++
+		if running != in {
+			w.add("view", "running: imported public key "+id+" known", running, in)
+		}
+		if reopened, err := w.shadowKnows(addr); err == nil && reopened != in {
+			w.add("view", "restart: imported public key "+id+" known", reopened, in)
+		}
+	}
 	// what a restart would say: a manager opened on a copy of the database file
 	cp := filepath.Join(e.dir, "shadow.db")
 	if err := copyFile(e.dbPath, cp); err != nil {
@@ -524,4 +593,38 @@ func (w *awWorld) view(exp *awObs) {
 	if err != nil {
 		w.add("view", "restart: waddrmgr.Open on the database copy", err.Error(), "ok")
 	}
+}
+
+// importPub returns the public key imported under the model's identifier.
+func (w *awWorld) importPub(id string) *btcec.PublicKey {
+	h := sha256.Sum256([]byte("aw-import-pub-" + id + "-" + fmt.Sprint(w.e.seed)))
+	_, pub := btcec.PrivKeyFromBytes(h[:])
+	return pub
+}
+
+// shadowKnows reports whether a manager opened on a copy of the database file knows the address.
+func (w *awWorld) shadowKnows(addr btcutil.Address) (bool, error) {
+	e := w.e
+	cp := filepath.Join(e.dir, "shadow-k.db")
+	if err := copyFile(e.dbPath, cp); err != nil {
+		return false, err
+	}
+	db, err := walletdb.Open("bdb", cp, true, 10*time.Second, false)
+	if err != nil {
+		return false, err
+	}
+	defer db.Close()
+	known := false
+	err = walletdb.View(db, func(tx walletdb.ReadTx) error {
+		ns := tx.ReadBucket([]byte("waddrmgr"))
+		m, err := waddrmgr.Open(ns, pubPass, e.params)
+		if err != nil {
+			return err
+		}
+		defer m.Close()
+		_, aerr := m.Address(ns, addr)
+		known = aerr == nil
+		return nil
+	})
+	return known, err
 }
